@@ -17,11 +17,11 @@ def sh(cmd, env=None, cwd=None, timeout=3600):
     return p.returncode, p.stdout
 
 
-def do_import(pid, mdir):
+def do_import(pid, mdir, offset=0):
     pid = pid.upper()
     for diff in sorted(glob.glob(os.path.join(mdir, 'm*.diff'))):
         k = os.path.basename(diff)[:-5]
-        sid = '%s_%s' % (pid, k)
+        sid = '%s_m%d' % (pid, int(k[1:]) + offset)
         d = os.path.join(SEEDED, sid); os.makedirs(d, exist_ok=True)
         shutil.copy(diff, os.path.join(d, 'patch.diff'))
         demo = os.path.join(mdir, k + '_demo.py')
@@ -30,7 +30,7 @@ def do_import(pid, mdir):
         text = re.sub(r'/tmp/wt-[a-z0-9]+/src', "' + __import__('os').environ.get('SEEDED_SRC', '/repo/src') + '", text) if False else text
         open(os.path.join(d, 'demo.py'), 'w').write(text)
         md = open(os.path.join(mdir, k + '.md')).read() if os.path.exists(os.path.join(mdir, k + '.md')) else ''
-        meta = {'id': sid, 'property': pid, 'source': 'independent sub-agent given only the property text and a private worktree of /repo',
+        meta = {'id': sid, 'property': pid, 'source': 'independent sub-agent given only the property text and a private worktree of /repo' + (' (second round)' if offset else ''),
                 'needs_to_manifest': md.strip(), 'ran': None}
         json.dump(meta, open(os.path.join(d, 'meta.json'), 'w'), indent=1)
         print('imported', sid)
@@ -123,7 +123,7 @@ def do_table():
 
 if __name__ == '__main__':
     if sys.argv[1] == 'import':
-        do_import(sys.argv[2], sys.argv[3])
+        do_import(sys.argv[2], sys.argv[3], int(sys.argv[4]) if len(sys.argv) > 4 else 0)
     elif sys.argv[1] == 'run':
         do_run(sys.argv[2], sys.argv[4] if len(sys.argv) > 4 else 'quick')
     elif sys.argv[1] == 'table':
